@@ -5,7 +5,7 @@ fork+insert and of the reaper, the kill gate, dead-flag pairing, status-record
 ownership.  Not decided: ordering of statuses, pid reuse races, routing
 multiplicities over schedules.
 """
-from ..core import (AnalysisBroken, canon, strip, last_member, must_pass, relpath, norm_cond, walk)
+from ..core import (names_of, same_value, AnalysisBroken, canon, strip, last_member, must_pass, relpath, norm_cond, walk)
 from .. import generic
 from ..analyses import (is_call, locksets, held, holding, atoms_reading, must_pass_from_block,
                         path_to, describe, exits_of)
@@ -20,6 +20,7 @@ def null_rule(ctx, rid, files):
     for f in sorted(ctx.prog.all_funcs(), key=lambda f: f.q):
         if not f.file.endswith(files):
             continue
+        f = f.pristine()      # the rule is about what the source says of a local, not of the value it caches
         reps, ncand = generic.null_contradiction(f)
         if not ncand:
             continue
